@@ -112,7 +112,7 @@ Proof. vm_compute; reflexivity. Qed.
    acceptEvent / acceptPublishTopic / acceptQuery and the upsert arm of topic.go *)
 Definition sample : entity :=
   mkE (bs "foo.v1") (bs "Foo") [] [mkK (mkU (bs "fooId") (KKey true None None) false false) false] []
-      [bs "ACTIVE"] [mkEv (bs "Create") []] [] [mkS [] []] (Some (mkQ true [])).
+      [bs "ACTIVE"] [mkEv (bs "Create") []] [] [mkS [] []] (Some (mkQ true [])) [].
 Definition externals (cs : list component) : list (bytes * bytes) :=
   flat_map (fun f => match f_type f with
                      | TObject (c :: p) n => [(c :: p, n)]
